@@ -10,7 +10,8 @@ from hgmon.build import all_fids
 
 LEVEL = "exploration"
 RULE = (
-    "all program families (DAG, gated, loops, nested, mapped, wait_for DAGs with emits, cached nodes and cached gates "
+    "all program families (DAG, gated, loops, nested, mapped, wait_for DAGs with emits, signals read as plain inputs "
+    "with the entry point downstream of the emitter, cached nodes and cached gates "
     "with emits run twice on one cache) x entry-point sets (1-3 non-gate nodes) x selections at graph level, run time "
     "and inside nested graphs x on_missing in {ignore, warn, error}; results of completed, failed (continue) and paused "
     "runs; some function nodes return None (a produced value); 25% of the graphs are derived (with_entrypoint/select/bind) from objects that were already run. Oracle: (a) "
@@ -101,7 +102,9 @@ def one(ctx, fam, i):
     # configuration
     fnodes = [ns["name"] for ns in spec["nodes"] if ns["k"] not in ("ifelse", "route")]
     cfg = {}
-    if fnodes and rng.random() < 0.5 and fam["family"] not in ("loop",):
+    if spec.get("entry"):
+        pass  # the family fixed the entry points
+    elif fnodes and rng.random() < 0.5 and fam["family"] not in ("loop",):
         spec["entry"] = rng.sample(fnodes, rng.randint(1, min(3, len(fnodes))))
     if data and rng.random() < 0.5:
         spec["select"] = rng.sample(sorted(data), rng.randint(1, min(2, len(data))))
@@ -262,6 +265,24 @@ def cached_gate_emit(rng):
     return {"family": "cached", "spec": spec, "inputs": gen.gated_inputs(rng, spec), "kw": {}}
 
 
+def emit_entry_family(rng):
+    """An ordering signal that is also consumed as a plain input, with the entry point placed downstream of the
+    emitting node: the caller supplies the signal's name, which is no more a result than the sentinel is."""
+    k = rng.randint(1, 2)
+    nodes = [{"k": "fn", "name": "emitter", "params": [{"n": "a"}], "outs": ["ev"], "emit": ["sig"]}]
+    names = []
+    for j in range(k):
+        nodes.append({"k": "fn", "name": f"reader{j}", "params": [{"n": "sig"}] + ([{"n": "ev"}] if rng.random() < 0.4 else []), "outs": [f"dv{j}"]})
+        names.append(f"reader{j}")
+    if rng.random() < 0.6:
+        nodes.append({"k": "fn", "name": "waiter", "params": [{"n": "b"}], "outs": ["wv"], "wait": ["sig"]})
+        names.append("waiter")
+    nodes.append({"k": "fn", "name": "tail", "params": [{"n": "dv0"}], "outs": ["tv"]})
+    rng.shuffle(nodes)
+    spec = {"name": "g", "nodes": nodes, "bind": {}, "entry": rng.sample(names, rng.randint(1, len(names)))}
+    return {"family": "emit-entry", "spec": spec, "inputs": {"a": "run:a", "b": "run:b"}, "kw": {}}
+
+
 def interrupt_family(rng):
     """DAG with 1-2 pausing interrupts: exercises PAUSED results."""
     from hgmon.props import C14
@@ -282,5 +303,5 @@ def run(ctx):
         ctx.case("r2")
         return
     for i in range(n):
-        fam = cached_gate_emit(ctx.rng) if i % 5 == 4 else interrupt_family(ctx.rng) if i % 7 == 3 else families.rich(ctx.rng)
+        fam = cached_gate_emit(ctx.rng) if i % 5 == 4 else interrupt_family(ctx.rng) if i % 7 == 3 else emit_entry_family(ctx.rng) if i % 11 == 6 else families.rich(ctx.rng)
         one(ctx, fam, i)
